@@ -418,6 +418,14 @@ def fromRequest (leftover : Bytes) (stream : Src) (chunked : Bool) (cl : Option 
     | some n => if 0 < n then newFixed leftover stream n else newEmpty stream
     | none => newEmpty stream
 
+/-- `from_response` (client side): as `from_request`, except that a response without framing fields is delimited by
+the end of the connection -/
+def fromResponse (leftover : Bytes) (stream : Src) (chunked : Bool) (cl : Option Nat) : BodyReader :=
+  if chunked then newChunked leftover stream
+  else match cl with
+    | some n => if 0 < n then newFixed leftover stream n else newEmpty stream
+    | none => newEof leftover stream
+
 /-- the raw stream (`inner()`) -/
 def src (r : BodyReader) : Src :=
   match r.enc with
